@@ -10,6 +10,7 @@ import Acra.Model.Ch11Misc
 import Acra.Model.Ch11PCM
 import Acra.Model.Ch11TimeFmt
 import Acra.Model.Ch11Video
+import Acra.Drv.Mpeg
 namespace Acra.Drv.Ch11
 open Acra.Py Acra.Drv Acra.Model.Ch11Pay
 
@@ -433,28 +434,32 @@ end T
 
 /-! ### video format 2 -/
 namespace V
-open Acra.Model.Ch11Pay.Video
+open Acra.Model.Ch11Pay.Video Acra.Model.MPEGTS
 
-def blockVal (c : Bytes) : Val :=
-  let w := byteAt c 1 * 256 + byteAt c 2
-  .obj "Ch11TsBlock" [("pid", .ofNat (w % 8192)), ("tei", .bool (w / 32768 % 2 == 1)), ("pusi", .bool (w / 16384 % 2 == 1)),
-    ("transport_priority", .ofNat (w / 8192 % 2)), ("tsc", .ofNat (byteAt c 3 / 64 % 4)),
-    ("adaption_ctrl", .ofNat (ctrl c)), ("continuitycounter", .ofNat (byteAt c 3 % 16)), ("payload", .bytes (chunkPayload c))]
+/-- the adapter's `mpegts` setter: each chunk is decoded by a new `MPEGPacket()` and appended to a new `MPEGTS()` -/
+def decodeChunks : List Bytes → Option (List Pkt)
+  | [] => some []
+  | c :: cs =>
+    match Pkt.unpack Pkt.fresh c with
+    | (p, .ok ()) => (decodeChunks cs).map fun ps => p :: ps
+    | (_, .error _) => none
 
 def codec : Codec :=
   { σ := State, name := "VideoFormat2", fresh := fun _ => some fresh,
-    pack := fun s _ => bRes s (pack s),
+    pack := fun s _ => ((pack s).1, (pack s).2.map Val.bytes),
     unpack := fun s b _ => uRes (unpack s b),
     set := fun s f v =>
       match f with
       | "channel_specific_word" => v.nat?.bind fun n => okSet { s with channel_specific_word := n }
       | "datastream" => v.nat?.bind fun n => okSet { s with datastream := n }
       | "mpegts" => (v.list?.bind fun l => l.mapM Val.bytes?).bind fun cs =>
-          if cs.all chunkOk then okSet { s with blocks := cs } else some (s, .error .generic)
+          match decodeChunks cs with
+          | some ps => okSet { s with mpegts := { blocks := ps } }
+          | none => some (s, .error .generic)
       | _ => none,
     obs := fun s => .obj "VideoFormat2" [("channel_specific_word", .ofNat s.channel_specific_word),
-      ("datastream", .ofNat s.datastream), ("mpegts", .list (s.blocks.map blockVal))],
-    eq := fun a b => eq a b }
+      ("datastream", .ofNat s.datastream), ("mpegts", .list (s.mpegts.blocks.map Acra.Drv.Mpeg.pktVal))],
+    eq := fun a b => .ok (eq a b) }
 end V
 
 def ch11Codecs : List Codec :=
